@@ -830,11 +830,11 @@ fn emit(
         CallRes::Panic(m, l) => ("panic", vec![], 0, m.clone(), relpath(l)),
         CallRes::Budget => ("budget", vec![], 0, String::new(), String::new()),
     };
-    let head = json!({"k":"call","id":id,"i":i,"name":name,"args":args,"res":r,"err":err,"errk":errk,
+    let head = json!({"name":name,"args":args,"res":r,"err":err,"errk":errk,
                       "pmsg":pmsg,"ploc":ploc,"obs":obs,"x":Value::Object(x),"nf":ops.1,"nops":ops.2.min(0x7fff_ffff)});
-    let mut s = serde_json::to_string(&head).unwrap();
-    s.pop(); // strip '}'
-    let _ = writeln!(out, "{},\"ops\":{}}}", s, ops.0);
+    let s = serde_json::to_string(&head).unwrap();
+    // fixed prefix so that line-oriented tools can classify records without parsing them
+    let _ = writeln!(out, "{{\"k\":\"call\",\"id\":{},\"i\":{},{},\"ops\":{}}}", id, i, &s[1..s.len() - 1], ops.0);
 }
 
 pub fn run_scenario(sc: &Scenario, out: &mut dyn Write) {
@@ -847,7 +847,7 @@ pub fn run_scenario(sc: &Scenario, out: &mut dyn Write) {
     };
     let (fw, fh, colour) = model_info(&c.model);
     let fault = sc.fault.clone();
-    let scn = json!({"k":"scn","id":sc.id,"kind":kind,
+    let scn = json!({"kind":kind,
         "cfg":{"model":c.model,"W":fw,"H":fh,"w":c.w.unwrap_or(fw),"h":c.h.unwrap_or(fh),
                "ox":c.ox.unwrap_or(0),"oy":c.oy.unwrap_or(0),"rot":c.rot,"mir":c.mir,"bgr":c.bgr,"inv":c.inv,
                "refv":c.refv,"refh":c.refh,"rst":c.rst,"iface":c.iface,"buf":c.buf,
@@ -856,7 +856,8 @@ pub fn run_scenario(sc: &Scenario, out: &mut dyn Write) {
         "fault": match &fault { Some(f) => json!({"call":f.call,"k":f.k,"effect":f.effect}), None => json!({"call":0,"k":0,"effect":false}) },
         "tag": sc.tag.clone().unwrap_or(json!("")),
         "ncalls": sc.calls.len()});
-    let _ = writeln!(out, "{}", serde_json::to_string(&scn).unwrap());
+    let scn_s = serde_json::to_string(&scn).unwrap();
+    let _ = writeln!(out, "{{\"k\":\"scn\",\"id\":{},{}", sc.id, &scn_s[1..]);
 
     let fault_for = |i: usize| -> (Option<u32>, bool) {
         match &fault {
